@@ -1,7 +1,9 @@
 (* The source text the kNN and KDE models (Model/KnnCounts.v, Model/Kde.v) were written from.
 
    harness/translate_est.py re-reads these five functions from /repo on every run, inlines their local
-   assignments (so renaming or re-ordering temporaries changes nothing) and emits, per return path, the returned
+   assignments (so renaming or re-ordering temporaries changes nothing), inlines straight-line private helpers, writes
+   behaviour-preserving spellings in one canonical form (a + -b as a - b; E.sum(..) as np.sum(E, ..); calls of package
+   functions with all arguments as keywords in signature order) and emits, per return path, the returned
    expression in terms of the parameters; a generated lemma then states that what the source says NOW equals this
    table.  Correspondence with the model, piece by piece:
      np.sort(cdist(JS, JS, metric), axis=1)[:, k]            eps        (index k of the sorted joint distances)
@@ -20,11 +22,11 @@ Definition modelled_source : list (string * string) :=
   [("knn_mutual_information.signature",
     "X,Y,metric='euclidean',k=1");
    ("knn_mutual_information.return[always]",
-    "digamma(k)+digamma(X.shape[0])+-np.mean(digamma(np.sum(cdist(X,X,metric=metric)<np.sort(cdist(np.column_stack((X,Y)),np.column_stack((X,Y)),metric=metric),axis=1)[:,k][:,None],axis=1)-1+1)+digamma(np.sum(cdist(Y,Y,metric=metric)<np.sort(cdist(np.column_stack((X,Y)),np.column_stack((X,Y)),metric=metric),axis=1)[:,k][:,None],axis=1)-1+1))");
+    "digamma(k)+digamma(X.shape[0])-np.mean(digamma(np.sum(cdist(X,X,metric=metric)<np.sort(cdist(np.column_stack((X,Y)),np.column_stack((X,Y)),metric=metric),axis=1)[:,k][:,None],axis=1)-1+1)+digamma(np.sum(cdist(Y,Y,metric=metric)<np.sort(cdist(np.column_stack((X,Y)),np.column_stack((X,Y)),metric=metric),axis=1)[:,k][:,None],axis=1)-1+1))");
    ("knn_conditional_mutual_information.signature",
     "X,Y,Z,metric='minkowski',k=1");
    ("knn_conditional_mutual_information.return[ZisNone]",
-    "knn_mutual_information(X,Y,metric=metric,k=k)");
+    "knn_mutual_information(X=X,Y=Y,metric=metric,k=k)");
    ("knn_conditional_mutual_information.return[not(ZisNone)]",
     "digamma(k)-np.mean(digamma(np.sum(cdist(np.column_stack((X,Z)),np.column_stack((X,Z)),metric=metric)<(np.sort(cdist(np.column_stack((X,Y,Z)),np.column_stack((X,Y,Z)),metric=metric,p=k+1),axis=1)[:,k]ifmetric=='minkowski'elsenp.sort(cdist(np.column_stack((X,Y,Z)),np.column_stack((X,Y,Z)),metric=metric),axis=1)[:,k])[:,None],axis=1)-1+1)+digamma(np.sum(cdist(np.column_stack((Y,Z)),np.column_stack((Y,Z)),metric=metric)<(np.sort(cdist(np.column_stack((X,Y,Z)),np.column_stack((X,Y,Z)),metric=metric,p=k+1),axis=1)[:,k]ifmetric=='minkowski'elsenp.sort(cdist(np.column_stack((X,Y,Z)),np.column_stack((X,Y,Z)),metric=metric),axis=1)[:,k])[:,None],axis=1)-1+1)-digamma(np.sum(cdist(Z,Z,metric=metric)<(np.sort(cdist(np.column_stack((X,Y,Z)),np.column_stack((X,Y,Z)),metric=metric,p=k+1),axis=1)[:,k]ifmetric=='minkowski'elsenp.sort(cdist(np.column_stack((X,Y,Z)),np.column_stack((X,Y,Z)),metric=metric),axis=1)[:,k])[:,None],axis=1)-1+1))");
    ("kde_entropy.signature",
@@ -34,8 +36,8 @@ Definition modelled_source : list (string * string) :=
    ("kde_mutual_information.signature",
     "X,Y,bandwidth='silverman',kernel='gaussian'");
    ("kde_mutual_information.return[always]",
-    "kde_entropy(X,bandwidth=bandwidth,kernel=kernel)+kde_entropy(Y,bandwidth=bandwidth,kernel=kernel)-kde_entropy(np.hstack((X,Y)),bandwidth=bandwidth,kernel=kernel)");
+    "kde_entropy(X=X,bandwidth=bandwidth,kernel=kernel)+kde_entropy(X=Y,bandwidth=bandwidth,kernel=kernel)-kde_entropy(X=np.hstack((X,Y)),bandwidth=bandwidth,kernel=kernel)");
    ("kde_conditional_mutual_information.signature",
     "X,Y,Z,bandwidth='silverman',kernel='gaussian'");
    ("kde_conditional_mutual_information.return[always]",
-    "kde_mutual_information(X,Y,bandwidth=bandwidth,kernel=kernel)ifZisNoneelsekde_entropy(np.hstack((X,Z)),bandwidth=bandwidth,kernel=kernel)+kde_entropy(np.hstack((Y,Z)),bandwidth=bandwidth,kernel=kernel)-kde_entropy(np.hstack((X,Y,Z)),bandwidth=bandwidth,kernel=kernel)-kde_entropy(Z,bandwidth=bandwidth,kernel=kernel)")].
+    "kde_mutual_information(X=X,Y=Y,bandwidth=bandwidth,kernel=kernel)ifZisNoneelsekde_entropy(X=np.hstack((X,Z)),bandwidth=bandwidth,kernel=kernel)+kde_entropy(X=np.hstack((Y,Z)),bandwidth=bandwidth,kernel=kernel)-kde_entropy(X=np.hstack((X,Y,Z)),bandwidth=bandwidth,kernel=kernel)-kde_entropy(X=Z,bandwidth=bandwidth,kernel=kernel)")].
